@@ -110,7 +110,7 @@ PROPS = {
                        'gf_split / gf_separator / replace_parens / continuous / quiet have the same code in every '
                        'format; option keys are literal, tested before use and forwarded; every reader gunzips; the TIGER root is '
                        'searched among all nodes. '
-                       'Does NOT decide: export field splitting, TIGER id-ref resolution, character decoding.',
+                       'Also: the export node-line test is exactly `#` + three digits. Does NOT decide: export field splitting, TIGER id-ref resolution, character decoding.',
     },
     'C02': {
         'rules': ['R-ESC', 'R-VOCAB', 'R-NONE', 'R-GUARD', 'DECOR', 'R-EXPNUM', 'R-LEVELS', 'R-TABS', 'R-ORDERED',
@@ -126,7 +126,7 @@ PROPS = {
                        'fields are defaulted before use; the bracket writer writes only under gap degree 0 and '
                        'raises/skips otherwise; each label decoration depends on its own option and all returns of '
                        'get_label carry all decorations in order; export numbers are a counter from 500 over ascending '
-                       'levels, left to right, root 0; field separators are never empty. Does NOT decide: that an '
+                       'levels, left to right, root 0; field separators are never empty. Also: gap degree purity and gap predicate (the bracket guard relies on them), writer purity, label written after paren mapping. Does NOT decide: that an '
                        'independent decoder recovers the tree, tab-stop widths, terminals output text.',
     },
     'C03': {
@@ -142,7 +142,7 @@ PROPS = {
                        '<fmt>_begin/_end on every path, encodings reach every open and gzip is undone byte-exactly, '
                        'trees from field-poor formats can be written (None defaults), own reader/writer agree on XML '
                        'vocabulary and on the discobracket index convention, options are forwarded, reader state is reset per '
-                       'sentence, directory mode converts every member, output is opened for writing. Does NOT decide: '
+                       'sentence, directory mode converts every member, output is opened for writing. Also: readers get --src-opts and writers --dest-opts at every dispatch site; gf_split re-assembly agrees across readers; lexer actions; label decorations; per-tree steps do not depend on the sentence counter. Does NOT decide: '
                        'losslessness of a round trip.',
     },
     'C04': {
@@ -157,7 +157,7 @@ PROPS = {
                        'dataflow with root-preservation summaries), only documented node fields are written and only '
                        'documented nodes move, parents are read in the moving iteration, stored child order is never '
                        'observed; the boyd_split flag protocol (one copy node per block, head block only through the head child). '
-                       'Does NOT decide: acyclicity in general, label multiset equality.',
+                       'Also: head positions are child indices and reach every constituent; the block predicate. Does NOT decide: acyclicity in general, label multiset equality.',
     },
     'C05': {
         'rules': ['R-LINK', 'R-FLAGS', 'R-DISCONT', 'R-FRAME', 'R-ORDERED', 'R-KEEP', 'R-HEADS', 'DECOR'],
@@ -186,7 +186,7 @@ PROPS = {
                        'entries created only when absent; argument positions numbered by emission; a new reference is '
                        'emitted iff the current argument is empty or ends in another child; one argument per block; '
                        'vertical context from dominance() with gap degree + 1; the context-freeness test inspects '
-                       'every rule; ordered accessors used. Does NOT decide: that the linearization reproduces the blocks.',
+                       'every rule; ordered accessors used. Also: the head-block update as a 16-row truth table; markers reach unary constituents. Also: merge guard as a 4-row truth table; counting is unconditional; leaf shortcut of gap_degree_node only for nodes without children; is_contextfree as an exhaustively explored boolean program. Does NOT decide: that the linearization reproduces the blocks.',
     },
     'C07': {
         'rules': ['R-ARITY', 'R-ARGPOS', 'R-INVERSEMAP', 'R-MEMO', 'R-ACCUM', 'R-PAIRUSE'],
@@ -196,7 +196,7 @@ PROPS = {
         'explanation': 'Decides only: binarized rule keys are triples, rank <= 2 rules are stored verbatim under the '
                        'rank test, every label handed out is new (counter incremented before each return), one '
                        'generator per binarize call; linsub numbers argument positions by emission; reordering permutes '
-                       'right-hand sides with a map and renames variables with its inverse. Does NOT decide: the '
+                       'right-hand sides with a map and renames variables with its inverse. Also: production and linearization handed to binarize_rule come from the same reordering call; entries of the result are created only when absent. Does NOT decide: the '
                        'linsub algebra, chain composition, fan-out agreement.',
     },
     'C08': {
@@ -205,7 +205,7 @@ PROPS = {
                        '(+=, right-hand side reads the slot, or a local derived from it on every path), entries are '
                        'created only under `key not in table`, the count handed to the binarizer is the source rule\'s '
                        'own count, every writer prints the sum over contexts, task accumulators count each unit once. '
-                       'Does NOT decide: the numeric balance equation.',
+                       'Also: inside the loop over vertical contexts the count handed over is the context\'s own; zero-initialised counter tables are added to. Does NOT decide: the numeric balance equation.',
     },
     'C09': {
         'rules': ['R-MUSTUSE', 'R-ENC', 'R-GUARD', 'R-ACCUM', 'R-IDCOUNTER', 'R-SORTEDPOS', 'R-OPTKEY', 'R-STATE', 'R-LOOPSTRIP', 'R-OPENMODE', 'R-DISCONT', 'R-OPTSIDE'],
@@ -221,7 +221,7 @@ PROPS = {
                        'and the driver passes source/destination encoding to the right side; LoPar refuses non-context-'
                        'free grammars before opening files; printed counts are sums over contexts; PMCFG ids advance '
                        'once per labelled item; RCG argument positions are written in sorted order; lex_in_grammar is '
-                       'tested literally and works on a copy. Does NOT decide: textual round trip of RCG/PMCFG.',
+                       'tested literally and works on a copy. Also: option sides; is_contextfree itself; protective copies keep every linearization. Does NOT decide: textual round trip of RCG/PMCFG.',
     },
     'C10': {
         'rules': ['R-GUARD', 'R-ORDERED', 'R-STATE', 'R-FRAME', 'R-OPENMODE', 'R-ENC', 'R-LEAFGUARD', 'R-OPTSIDE', 'R-PERTREE'],
@@ -237,7 +237,7 @@ PROPS = {
         'explanation': 'Decides: the gap oracle emits UNARY through a closure loop and cannot stop before it ran; the '
                        'top-down oracle dispatches arity 0/1/2 exhaustively on the ordered children with the head side '
                        'from the first ordered child; oracles neither write the tree nor keep state between calls; '
-                       'the pos option selects the POS component. Does NOT decide: replay soundness.',
+                       'the pos option selects the POS component. Also: writer options come from --dest-opts, encodings reach the opens, `_inorder` returns early only for tokens. Does NOT decide: replay soundness.',
     },
     'C11': {
         'rules': ['R-ROOT', 'R-EDIT', 'R-LABELEDIT', 'R-STATE', 'R-FRAME', 'R-KEEP'],
@@ -251,7 +251,7 @@ PROPS = {
                        '1 <= position <= n(+1); only punctuation is deleted and never all of it; the length filter '
                        'maps lt/gt/eq to </>/==; trace deletion strips gap indices unconditionally and co-indices unless '
                        'keepcoindex, on every constituent; the terminal-file cache is only written while loading. '
-                       'Does NOT decide: which tokens are traces (string semantics).',
+                       'Also: insertions are processed in ascending order; the co-index is kept under keepcoindex only; option strings are split before membership tests; renumbering runs once per deleted token. Does NOT decide: which tokens are traces (string semantics).',
     },
     'C12': {
         'rules': ['R-FRAME', 'R-LINK', 'R-EDGE', 'R-KEEP', 'R-ORDERED'],
@@ -262,7 +262,7 @@ PROPS = {
         'explanation': 'Decides the frame of root_attach: no node field written, only loop variables over the ordered '
                        'root children move, links paired, the move is dominated by the exact test "left neighbour >= '
                        'first token and right neighbour <= last token", the sibling-skipping loop recomputes both '
-                       'spans per iteration, right_sibling uses the ordered children. Does NOT decide: equality with '
+                       'spans per iteration, right_sibling uses the ordered children. Also: the two tests of the sibling scan in integer-linear normal form (skip: starts before the end of the focus; stop: at least two positions after it); spans are fresh when compared. Does NOT decide: equality with '
                        'the set-based reference.',
     },
     'C13': {
@@ -271,7 +271,7 @@ PROPS = {
                    'R-FRAME': site(*PUNCT), 'R-LINK': site(*PUNCT), 'R-KEEP': site(*PUNCT), 'R-STALE': site(*PUNCT)},
         'explanation': 'Decides: only tokens filtered by trees.PUNCT / PAIRPUNCT are moved; the moved set is '
                        'restricted by the documented conditions only; links are paired; no constituent is emptied '
-                       '(guard at move time); targets are read from .parent in the moving iteration. Does NOT decide: '
+                       '(guard at move time); targets are read from .parent in the moving iteration. Also: the candidate loops are never left early; position bound; guard inventory covers the moved inventory. Does NOT decide: '
                        'that the new parent is the documented one.',
     },
     'C14': {
@@ -290,7 +290,7 @@ PROPS = {
         'explanation': 'Decides: uncollapse/binarize/collapse return the root; added nodes are labelled "@" + parent '
                        'category with the co-index blanked (bare on request) and marked head; the head mark is read only '
                        'after its presence check; children emptied from a node are snapshotted and re-attached with '
-                       'parent pointers. Does NOT decide: reversibility.',
+                       'parent pointers. Also: walkers return early only for nodes without children; dead presence checks; labels are rebuilt from their current content. Does NOT decide: reversibility.',
     },
     'C15': {
         'rules': ['R-HEADS', 'R-STATE', 'R-ORDERED', 'R-LITERALS', 'R-MEMO'],
@@ -321,7 +321,7 @@ PROPS = {
                        'fan-out[0] = number of arguments; context-free iff no linearization has > 1 argument, tested on '
                        'every rule; the bracket writer guards on gap degree; tasks count each tree/constituent/token '
                        'once and keep only accumulated state; analysis functions write nothing; disco_order returns a '
-                       'node as such only for tokens. Does NOT decide: numeric equality with the set-based definition.',
+                       'node as such only for tokens. Also: marking reaches unary constituents; dead rejections; undecorated parent label. Also: gap predicate in normal form at every site, counter incremented, running maximum; per-tree steps unconditional. Does NOT decide: numeric equality with the set-based definition.',
     },
     'C17': {
         'rules': ['R-SPLITARITH', 'R-FRAMEFILE', 'R-ENC', 'R-OPENMODE', 'R-OPTSIDE'],
@@ -332,7 +332,7 @@ PROPS = {
                        'rejected), the remainder goes to rest or to parts.index(max(parts)), bad specifications raise '
                        'ValueError; the specification is evaluated against the list actually written, one shared '
                        'iterator hands out each tree once in order, each part file is framed on every path. '
-                       'Does NOT decide: the sum arithmetic itself.',
+                       'Also: option sides; sign check inside the part loop; index-or-None tests. Does NOT decide: the sum arithmetic itself.',
     },
     'C18': {
         'rules': ['R-STATE', 'R-READER-STATE', 'R-ARITY', 'R-FRAME', 'R-ACCUM', 'R-MEMO', 'R-FRAMEFILE', 'R-PERTREE'],
@@ -345,7 +345,7 @@ PROPS = {
                        'caches are written only while loading and dropped completely; writers leave node content and '
                        'the caller\'s grammar as found (None-defaulting, #NNN on constituents, save/restore excepted); no '
                        'output loop over a set except the .start file; readers reset per-sentence state after each '
-                       'yield; label generators are per call. Does NOT decide: additivity as an equation.',
+                       'yield; label generators are per call. Also: accumulation in extract / binarize; per-tree steps; dropped trees never reach a writer. Does NOT decide: additivity as an equation.',
     },
     'C19': {
         'rules': ['R-ORDERED', 'R-LEVELS', 'R-EXPNUM', 'R-NAV', 'R-LEAFGUARD', 'R-FRAME', 'R-STATE', 'R-MEMO'],
@@ -359,7 +359,7 @@ PROPS = {
                        'levels are recorded for constituents only and aggregated with max; export numbers are a counter '
                        'from 500 over ascending levels, left to right; right/left sibling return the element at offset '
                        '+1/-1 (slice start and index arithmetic); dominance() yields the node and then every parent. '
-                       'Does NOT decide: the least common ancestor, the level arithmetic.',
+                       'Also: both level tables are filled together; dominance() yields the node first; no attribute caches on nodes; early returns only for nodes without children. Does NOT decide: the least common ancestor, the level arithmetic.',
     },
     'C20': {
         'rules': ['DECOR', 'R-OPTKEY', 'R-LABELFIELDS', 'R-LABELSPLIT', 'R-STATE', 'R-MEMO'],
@@ -370,7 +370,7 @@ PROPS = {
                        'recorded (one separator character dropped), indices are split at the last separator and only '
                        'if numeric, the trace test; format_label reads each component parse_label stores, glues the '
                        'function with the recorded separator, suppresses the two default literals unless asked; option '
-                       'keys are literal; output decorations follow their options. Does NOT decide: the inverse property '
+                       'keys are literal; output decorations follow their options. Also: gap index and co-index are both kept; the default switches are the documented options; placeholder test against the literal \'-\'. Does NOT decide: the inverse property '
                        'over all strings.',
     },
 }
